@@ -87,7 +87,7 @@ def body(case):
         for rec in r["failures"]:
             sub = c13.body(rec["case"])
             for f in sub.fails:
-                name = "atheris-%s.json" % hashlib.sha256(jdump(rec["case"]).encode()).hexdigest()[:10]
+                name = "fuzzcase-%s.json" % hashlib.sha256(jdump(rec["case"]).encode()).hexdigest()[:10]
                 d = os.path.join(HERE, "replays", "C13", "found")
                 os.makedirs(d, exist_ok=True)
                 with open(os.path.join(d, name), "w") as fh:
